@@ -265,7 +265,7 @@ impl Property for C03 {
         ]
     }
     fn expected_probes(&self) -> Vec<&'static str> {
-        vec!["strategy.full", "strategy.flow", "strategy.clifford", "strategy.default", "multi_register_input", "fault_led_to_reported_failure"]
+        vec!["strategy.full", "strategy.flow", "strategy.clifford", "strategy.default", "multi_register_input", "fault_led_to_reported_failure", "gate.h", "gate.x", "gate.z", "gate.s", "gate.sdg", "gate.t", "gate.tdg", "gate.rz", "gate.rx", "gate.cx", "gate.cz", "gate.swap", "gate.xcx", "gate.ccx", "gate.ccz"]
     }
 
     fn generate(&self, d: &mut Decider, _tier: Tier, sub: &str) -> Sc {
@@ -375,6 +375,16 @@ impl Property for C03 {
         });
         if sc.circ.regs.len() > 1 {
             out.probe("multi_register_input");
+        }
+        // which gate kinds this run's program uses (a kind that never shows up in a whole batch is a
+        // hole in the workload, however the generator is described)
+        {
+            let mut kinds: Vec<&'static str> = sc.circ.gates.iter().map(|g| g.k.name()).collect();
+            kinds.sort();
+            kinds.dedup();
+            for k in kinds {
+                out.probe(&format!("gate.{k}"));
+            }
         }
         let header = sc.circ.qasm_header();
         let stmts = sc.circ.qasm_statements();
